@@ -22,9 +22,9 @@ RULE = ("one run = warm-up transfer, ONE disturbed transfer, drain, undisturbed 
         "end), outcome class); non-trivial = the disturbance actually fired (step < number of responses); "
         "distinct = distinct keys among those")
 EXHAUSTIVE_CORE = ("{expedited, segmented declared, segmented undeclared, block} x {download, upload} x 11 "
-                   "length classes on both sides of the framing boundaries (block kinds up to 1772 bytes = two full sub-blocks of 127 segments) x 17 step positions x 16 "
+                   "length classes on both sides of the framing boundaries (block kinds up to 1772 bytes = two full sub-blocks of 127 segments) x 17 step positions x 17 "
                    "disturbance kinds (drop, abort, toggle, wrong multiplexer, duplicate, late, stale before/"
-                   "between/after, each other command specifier)")
+                   "between/after, each other command specifier; duplicated request against the repository's own server)")
 ASSUMPTIONS = [
     "RefSdoServer (incl. block transfer, CRC-16/XMODEM computed bitwise) is my reading of CiA 301",
     "a stale or duplicated frame that is protocol-indistinguishable (same command specifier, toggle/sequence "
@@ -37,7 +37,7 @@ COMPONENTS = {
     "stub": ["CAN backend (SimBus) with fault-injecting transport", "can.Notifier", "time/queue in canopen.sdo.client",
              "SDO server (RefSdoServer)"],
 }
-PROBES = ["client-abort-0x05040000", "queue-flushed", "block-upload-retransmit", "indistinguishable", "followup-ok"]
+PROBES = ["client-abort-0x05040000", "queue-flushed", "block-upload-retransmit", "indistinguishable", "followup-ok", "earlier-transfer-timed-out"]
 
 KINDS = ("exp-dl", "exp-ul", "seg-dl", "seg-dl-undeclared", "seg-ul", "blk-dl", "blk-ul",
          # the same against the repository's own SdoServer (LocalNode on a second Network)
@@ -48,7 +48,11 @@ LEN_BLK = (1, 6, 7, 8, 13, 14, 15, 21, 22, 50, 896, 1772)
 NLEN = 12
 STEPS = tuple(range(13)) + ("last", "last-1", "last-2", "mid")
 FAULTS = ("drop", "abort", "toggle", "mux", "dup", "late", "stale-before", "stale-between", "stale-after",
-          "cs0", "cs1", "cs2", "cs3", "cs4", "cs5", "cs6", "cs7")
+          "cs0", "cs1", "cs2", "cs3", "cs4", "cs5", "cs6", "cs7",
+          # CAN-level duplicate of a *request* (retransmission after a lost acknowledge slot), only against the repository's
+          # own server: the server answers the copy as well (toggle abort, second confirmation), so for the client this is
+          # "abort frame received" / "stale response" produced by the real peer instead of by the transport
+          "dup-req")
 ABORT_CODES = (0x08000000, 0x05040000, 0x06020000, 0x06090011, 0x06010002, 0x05030000, 0x05040001, 0, 0xFFFFFFFF)
 
 
@@ -107,6 +111,7 @@ class Plan(Transport):
         self.step = step
         self.nresp = 0
         self.nreq = 0
+        self.nreq_routed = 0
         self.fired = False
         self.recorded = []
         self.stale = stale
@@ -126,6 +131,17 @@ class Plan(Transport):
     def route(self, frame, dst):
         ctx = self.ctx
         lat = self.latency()
+        if self.fault == "dup-req" and self.active and frame.src == "master" and dst.name == "server" and frame.can_id == self.w.srv.rx_cobid:
+            k = self.nreq_routed
+            self.nreq_routed += 1
+            if k == self.step and not self.fired and self.w.real and frame.data[0] != 0x80:
+                self.fired = True
+                self.phase = _phase(self.w.kind, k, self.w.nresp)
+                ctx.fault("dup-req")
+                self.injected = frame.data
+                gap = (0, US, 300 * US, 3 * MS, 30 * MS)[ctx.choice(5, "dupgap")]
+                return [(lat, None), (lat + gap, None)]
+            return [(lat, None)]
         if frame.src != "server" or dst.name != "master" or not self.active:
             return [(lat, None)]
         k = self.nresp
@@ -133,7 +149,7 @@ class Plan(Transport):
         self.recorded.append(frame.data)
         self.real_at[k] = frame.data
         f = self.fault
-        if f is None or self.fired:
+        if f is None or self.fired or f == "dup-req":
             return [(lat, None)]
         ch = self.w.ch
         if f == "stale-before":
@@ -391,6 +407,16 @@ def _judge_undisturbed(ctx, w, kind, exc, res, data, index, sub, ncommits, label
                           "%s: server commits %r" % (what, [(i, s, d[:12].hex(), len(d)) for i, s, d in new]))
 
 
+def _release(ctx, w):
+    """Drop the last reference to an earlier failed call's exception and let the garbage collector finalize what it held."""
+    import gc
+    if getattr(w, "keep", None) is None:
+        return
+    w.keep = None
+    ctx.fault("finalizer-of-failed-transfer-runs-late")
+    gc.collect()
+
+
 def scenario(ctx):
     kind = KINDS[ctx.choice(len(KINDS), "kind")]
     li = ctx.choice(NLEN, "len")
@@ -451,6 +477,33 @@ def scenario(ctx):
         step = nresp // 2
     ctx.drain()
     srv.illegal.clear()
+
+    # ---- in a quarter of the runs an EARLIER transfer on the same client has already run into a lost response (and was
+    # aborted by the client): the statement's sentences about the disturbed transfer hold whatever the client went through before
+    if ctx.choice(4, "prelude") == 1:
+        with ctx.span("prelude"):
+            kp = KINDS[ctx.choice(5 if real else 7, "kindp")]
+            lp = _length(kp, ctx.choice(NLEN, "lenp"), ctx, real)
+            ip, sp = 0x2000 + ctx.choice(16, "ip"), 1 + ctx.choice(4, "sp")
+            w.kind = kp
+            plan.begin("drop", ctx.choice(3, "stepp"), None)
+            # the failed call's exception (its traceback holds the stream objects of that transfer) stays alive, as it does
+            # in an application that logs or stores it ...
+            w.keep = _do_transfer(ctx, w, kp, lp, ip, sp, 51 + ctx.choice(40, "saltp"))
+            plan.end()
+            if plan.fired:
+                ctx.probe("earlier-transfer-timed-out")
+            plan.phase = None
+            w.kind = kind
+            ctx.drain()
+            srv.illegal.clear()
+            # ... and is garbage-collected either at the end of the run, or right away, or - the interpreter picks the moment -
+            # while the undisturbed follow-up transfer is running: what the finalizers of the old stream objects do then
+            # (close() of a stream whose transfer failed) is part of the library's behaviour
+            w.finalize = ctx.choice(3, "finalize") if (plan.fired and w.keep[0] is not None) else 0
+            if w.finalize == 1:
+                _release(ctx, w)
+                ctx.drain()
 
     # ---- disturbed transfer
     stale = None
@@ -547,6 +600,8 @@ def scenario(ctx):
         n2 = len(srv.commits)
         q_before = node.sdo.responses
         stale_waiting = len(q_before.items) > 0
+        if getattr(w, "finalize", 0) == 2:
+            ctx.after((1 * US, 200 * US, 1 * MS, 5 * MS, 20 * MS)[ctx.choice(5, "finalize-at")], lambda: _release(ctx, w))
         exc2, res2, data2 = _do_transfer(ctx, w, k2, l2, i2, s2, 201 + ctx.choice(50, "salt2"))
         if stale_waiting and node.sdo.responses is not q_before:
             ctx.probe("queue-flushed")      # a stale frame was waiting and the client discarded it before its request
